@@ -4,7 +4,8 @@
    marshalling is a pure function of the value.  Parsing any byte string is total and deterministic: same
    input -> same value or same failure, and never panics." *)
 From GVL Require Import NList Wire.
-From GV Require Import Res Mikey MikeyProofs.
+From GVG Require Import Consts Kern.
+From GV Require Import Res Mikey MikeyProofs Bridge.
 Open Scope N_scope.
 
 (* Marshal ; Unmarshal is the identity on well-formed messages ([wf_message] is the executable predicate of
@@ -70,6 +71,98 @@ Definition ex_msg : message :=
       PRand [194;221;228;67;168;73;48;165;117;122;126;217;195;164;23;251];
       PSP 7 0 [(0, [1]); (1, [16]); (12, []); (255, [1;2;3])];
       PKemac 0 [mkKeyData 2 0 [144;145;120;61] []; mkKeyData 2 1 [1;2;3;4;5] [9;8;7;6]] 0 ].
+
+(* ---- BRIDGE (tools/go2coq) ----
+   The integer kernels of pkg/mikey TRANSLATED from the Go source on this run are the formulas of the model.
+   [byteN x] = x < 256 (an element of a []byte), [lenN x] = x < 2^59 (a Go length or offset), [zn] = Z.of_N.
+   (1) the guards: the constant of each  len(buf) < k  at the head of the six unmarshal functions is the model's, and
+   when the translated guard fires the model's function returns Err; the guards on the rest of the buffer
+   (tl = len(buf[n:])), on the running offsets of PayloadSP and on the trailing bytes of a message are the model's
+   comparisons. *)
+Theorem C09_mikey_guards_are_the_code : forall (buf : list N) tl x n e b,
+  lenN tl -> lenN x -> lenN n -> lenN e -> byteN b ->
+  ((k_mk_hdr_short (zn (nlen buf)) = (nlen buf <? 10) /\ (k_mk_hdr_short (zn (nlen buf)) = true -> um_header buf = Err)) /\
+   (k_mk_kemac_short (zn (nlen buf)) = (nlen buf <? 4) /\ (k_mk_kemac_short (zn (nlen buf)) = true -> um_kemac buf = Err)) /\
+   (k_mk_kd_short (zn (nlen buf)) = (nlen buf <? 4) /\ (k_mk_kd_short (zn (nlen buf)) = true -> um_key_data buf = Err)) /\
+   (k_mk_rand_short (zn (nlen buf)) = (nlen buf <? 2) /\ (k_mk_rand_short (zn (nlen buf)) = true -> um_rand buf = Err)) /\
+   (k_mk_sp_short (zn (nlen buf)) = (nlen buf <? 5) /\ (k_mk_sp_short (zn (nlen buf)) = true -> um_sp buf = Err)) /\
+   (k_mk_t_short (zn (nlen buf)) = (nlen buf <? 10) /\ (k_mk_t_short (zn (nlen buf)) = true -> um_t buf = Err))) /\
+  k_mk_hdr_map_short (zn tl) (zn b) = (tl <? b * 9) /\
+  k_mk_kemac_data_short (zn tl) (zn x) = (tl <? x + 1) /\
+  k_mk_kemac_unread (zn n) (zn x) = negb (n =? x) /\
+  k_mk_kd_key_short (zn tl) (zn x) = (tl <? x) /\
+  k_mk_kd_spilen_short (zn tl) = (tl <? 1) /\
+  k_mk_kd_spi_short (zn tl) (zn x) = (tl <? x) /\
+  k_mk_rand_small (zn x) = (x <? 16) /\
+  k_mk_rand_data_short (zn tl) (zn x) = (tl <? x) /\
+  k_mk_sp_overrun (zn n) (zn e) = (e <? n) /\
+  k_mk_sp_done (zn n) (zn e) = (n =? e) /\
+  k_mk_sp_param_short (zn tl) = (tl <? 2) /\
+  k_mk_sp_value_short (zn tl) (zn x) = (tl <? x) /\
+  (n <= tl -> k_mk_msg_trailing (zn tl) (zn n) (zn b) = ((n + 1 <? tl) && negb (b =? 0))).
+Proof. exact mikey_guards_are_the_code. Qed.
+Print Assumptions C09_mikey_guards_are_the_code.
+
+(* (2) the fields: the shift-and-or expressions of the Go code on bytes are the model's arithmetic be16 / be32 / be64,
+   the end offset of the policy parameters, the flag bit / PRF / key type / KV nibbles *)
+Theorem C09_mikey_fields_are_the_code : forall a b c d e f g h n len,
+  byteN a -> byteN b -> byteN c -> byteN d -> byteN e -> byteN f -> byteN g -> byteN h -> lenN n -> len < 65536 ->
+  k_mk_kemac_len (zn a) (zn b) = zn (be16 a b) /\ k_mk_kd_len (zn a) (zn b) = zn (be16 a b) /\
+  k_mk_sp_len (zn a) (zn b) = zn (be16 a b) /\
+  k_mk_sp_end (zn n) (zn len) = zn (n + len) /\
+  k_mk_hdr_csbid (zn a) (zn b) (zn c) (zn d) = zn (be32 a b c d) /\
+  k_mk_t_value (zn a) (zn b) (zn c) (zn d) (zn e) (zn f) (zn g) (zn h) = zn (be64 a b c d e f g h) /\
+  k_mk_hdr_v (zn b) = negb (N.shiftr b 7 =? 0) /\ k_mk_hdr_prf (zn b) = zn (N.land b 127) /\
+  k_mk_kd_type (zn b) = zn (N.shiftr b 4) /\ k_mk_kd_kv (zn b) = zn (N.land b 15).
+Proof. exact mikey_fields_are_the_code. Qed.
+Print Assumptions C09_mikey_fields_are_the_code.
+
+(* (3) Marshal: the bytes byte(x >> 8k) written by the marshalTo functions are put_be16 / put_be32 / put_be64, the packed
+   bytes V<<7|PRF and Type<<4|KV and the one-byte counts are the model's, and each marshalSize is the number of
+   bytes the model's marshal function writes (header: 10 + 9 per map entry; key data: 4 + key [+ 1 + SPI]; KEMAC:
+   5 + its sub-payloads; SP: 5 + 2 per parameter + the values; the running policyParamLength). *)
+Theorem C09_mikey_marshal_kernels_are_the_code :
+  (forall x, lenN x ->
+     put_be16 x = [Z.to_N (k_mk_kemac_len_hi (zn x)); Z.to_N (k_mk_kemac_len_lo (zn x))] /\
+     put_be16 x = [Z.to_N (k_mk_kd_len_hi (zn x)); Z.to_N (k_mk_kd_len_lo (zn x))] /\
+     put_be16 x = [Z.to_N (k_mk_sp_len_hi (zn x)); Z.to_N (k_mk_sp_len_lo (zn x))]) /\
+  (forall x, x < 4294967296 ->
+     put_be32 x = [Z.to_N (k_mk_hdr_csbid_b0 (zn x)); Z.to_N (k_mk_hdr_csbid_b1 (zn x));
+                   Z.to_N (k_mk_hdr_csbid_b2 (zn x)); Z.to_N (k_mk_hdr_csbid_b3 (zn x))]) /\
+  (forall x, x < 18446744073709551616 ->
+     put_be64 x = [Z.to_N (k_mk_t_b0 (zn x)); Z.to_N (k_mk_t_b1 (zn x)); Z.to_N (k_mk_t_b2 (zn x)); Z.to_N (k_mk_t_b3 (zn x));
+                   Z.to_N (k_mk_t_b4 (zn x)); Z.to_N (k_mk_t_b5 (zn x)); Z.to_N (k_mk_t_b6 (zn x)); Z.to_N (k_mk_t_b7 (zn x))]) /\
+  (forall (v : bool) prf ty kv n, byteN prf -> byteN ty -> byteN kv -> lenN n ->
+     k_mk_hdr_vprf (if v then 1 else 0) (zn prf) = zn (N.lor (if v then 128 else 0) prf) /\
+     k_mk_kd_typekv (zn ty) (zn kv) = zn (N.lor ((ty * 16) mod 256) kv) /\
+     k_mk_hdr_ncs (zn n) = zn (byte n) /\ k_mk_kd_spilen (zn n) = zn (byte n)) /\
+  (forall np h, lenN (nlen (map_info h)) -> zn (nlen (m_header np h)) = k_mk_hdr_size (zn (nlen (map_info h)))) /\
+  (forall nt kd, lenN (nlen (kd_key kd)) -> lenN (nlen (kd_spi kd)) ->
+     zn (nlen (m_key_data nt kd)) =
+     if kd_kv kd =? mikey_kv_spi
+     then k_mk_kd_size_spi (k_mk_kd_size_base (zn (nlen (kd_key kd)))) (zn (nlen (kd_spi kd)))
+     else k_mk_kd_size_base (zn (nlen (kd_key kd)))) /\
+  (forall nt e subs m, zn (nlen (m_payload nt (PKemac e subs m))) = (k_mk_kemac_size0 + zn (encr_len subs))%Z) /\
+  (forall nt pn pr ps, lenN (nlen ps) ->
+     zn (nlen (m_payload nt (PSP pn pr ps))) = (k_mk_sp_size0 (zn (nlen ps)) + zn (values_len ps))%Z /\
+     (forall p t, lenN (params_len t) -> lenN (nlen (snd p)) ->
+        zn (params_len (p :: t)) = k_mk_sp_plen_step (zn (params_len t)) (zn (nlen (snd p))))).
+Proof. exact mikey_marshal_kernels_are_the_code. Qed.
+Print Assumptions C09_mikey_marshal_kernels_are_the_code.
+
+(* the translated kernels compute *)
+Example C09_mikey_example_kernels :
+  k_mk_hdr_short 9 = true /\ k_mk_hdr_short 10 = false /\ k_mk_kemac_short 3 = true /\ k_mk_kemac_short 4 = false /\
+  k_mk_kemac_len 1 2 = 258%Z /\ k_mk_kemac_data_short 258 258 = true /\ k_mk_kemac_data_short 259 258 = false /\
+  k_mk_hdr_csbid 1 2 3 4 = 16909060%Z /\ k_mk_t_value 0 0 0 0 0 0 1 0 = 256%Z /\
+  k_mk_hdr_map_short 17 2 = true /\ k_mk_hdr_map_short 18 2 = false /\
+  k_mk_kd_type 33 = 2%Z /\ k_mk_kd_kv 33 = 1%Z /\ k_mk_kd_typekv 2 1 = 33%Z /\
+  k_mk_rand_small 15 = true /\ k_mk_rand_small 16 = false /\
+  k_mk_sp_end 5 300 = 305%Z /\ k_mk_sp_overrun 306 305 = true /\ k_mk_sp_done 305 305 = true /\
+  k_mk_msg_trailing 12 10 1 = true /\ k_mk_msg_trailing 11 10 1 = false /\ k_mk_msg_trailing 12 10 0 = false /\
+  k_mk_hdr_size 2 = 28%Z /\ k_mk_kd_size_spi (k_mk_kd_size_base 30) 4 = 39%Z /\ k_mk_sp_size0 3 = 11%Z /\
+  k_mk_kemac_len_hi 258 = 1%Z /\ k_mk_kemac_len_lo 258 = 2%Z /\ k_mk_t_b6 256 = 1%Z /\ k_mk_hdr_csbid_b0 16909060 = 1%Z.
+Proof. vm_compute. repeat split. Qed.
 
 Example C09_ex_wf : wf_message ex_msg = true.
 Proof. vm_compute. reflexivity. Qed.
